@@ -184,7 +184,8 @@ class C38(Prop):
             "physical times that differ from the indices (non-integer uneven spacing, constant "
             "dt 1/2, times far beyond the number of steps, times equal to the next / an "
             "earlier step's index), scalar and 3-vector cell data in multiples of 1/4, interface "
-            "data when there are interfaces; import through import_from_pvd; plus 1 (thorough: 6) end-to-end restarts of a "
+            "data when there are interfaces, the (grid, key, array) tuples handed over in "
+            "shuffled order, a single key given as a plain string; import through import_from_pvd; plus 1 (thorough: 6) end-to-end restarts of a "
             "SinglePhaseFlow run with dt in {1/4, 1/2, 1, 2} from the conventional / mdg pvd; plus "
             "time-history cases (1-6 writes, restore index in range and out of range); non-trivial = at "
             "least two cell types in one dimension or two time steps; distinct by (case, output)")
@@ -292,14 +293,23 @@ class C38(Prop):
 
             def spy(time_index=-1):
                 orig(time_index)
+                back = m2.equation_system.get_variable_values(time_step_index=0)
                 captured.update(index=int(time_index), time=float(m2.time_manager.time),
-                                dt=float(m2.time_manager.dt))
+                                dt=float(m2.time_manager.dt),
+                                state_ok=bool(np.array_equal(back, state)))
 
             m2.time_manager.set_time_and_dt_from_exported_steps = spy
-            m2.prepare_simulation()
-            back = m2.equation_system.get_variable_values(time_step_index=0)
-            return {"restored": captured, "state_ok": bool(np.array_equal(back, state)),
-                    "written": [case["dt"] * n, case["dt"], n]}
+            # restart and continue for two more steps; the pvd file is continued (append)
+            pp.run_time_dependent_model(m2)
+            hist = json.load(open(Path(folder) / "times.json"))["time"]
+            pvd_entries = []
+            for el in ET.parse(Path(folder) / "run.pvd").iter("DataSet"):
+                pvd_entries.append([float(el.attrib["timestep"]),
+                                    int(Path(el.attrib["file"]).stem[-6:])])
+            state_ok = captured.pop("state_ok", False)
+            return {"restored": captured, "state_ok": state_ok,
+                    "written": [case["dt"] * n, case["dt"], n],
+                    "history": hist, "pvd": pvd_entries}
         finally:
             shutil.rmtree(folder, ignore_errors=True)
 
@@ -442,6 +452,15 @@ class C38(Prop):
             if (r.get("time"), r.get("dt"), r.get("index")) != (t, h, n):
                 return (f"model restart: time/dt/index restored {r}, the last export was at "
                         f"time {t} with dt {h}, time-step index {n}")
+            # the pvd file continued after the restart: one entry per exported step (from
+            # the restart step on; from step 0 on when continued from the conventional pvd),
+            # each with the time at which that step was written
+            hist = res["history"]
+            first = n if case["mdg_pvd"] else 0
+            want = [[hist[i], i] for i in range(first, len(hist))]
+            if len(hist) != n + 3 or res["pvd"] != want:
+                return (f"model restart: the continued pvd file lists (time, step) "
+                        f"{res['pvd']}, the steps were written at {want}")
             return None
         if case["kind"] == "time":
             k = len(case["steps"])
@@ -470,7 +489,7 @@ class C38(Prop):
         elif sorted(res["picked"][2]) != want:
             return (f"import_from_pvd restarted from the files {sorted(res['picked'][2])}, the "
                     f"files of the most recent time-step index {last} are {want}")
-        if res["picked"][0] != last and not tied:
+        if res["picked"][0] != last:
             return (f"import_from_pvd restarted from time step {res['picked'][0]}, the most "
                     f"recent one written is {last}")
         for dd, back in zip(res["dims"], res["restored"]):
@@ -529,12 +548,16 @@ class C38(Prop):
         if case["kind"] == "vtu":
             if "import_from_pvd restarted from" in why:
                 return "import_from_pvd: latest time step"
+            if "nothing-imported" in why and case.get("str_key"):
+                return "import_state_from_vtu: keys given as a single string"
             for dd in res["dims"]:
                 if dd["sd"] and dd["dim"] == 3 and len(dd["ids"]) > 1 and (
                         "cannot be read back" in why or "dimension 3" in why):
                     return KNOWN_POLY3D
             return "import_state_from_vtu: interleaved cell types across subdomains of one dimension"
         if case["kind"] == "e2e":
+            if "continued pvd" in why:
+                return "write_pvd(append=True): continued pvd file after a model restart"
             return "import_from_pvd: time index of a conventional pvd written with physical times"
         return "time-information"
 
